@@ -4,6 +4,9 @@ _s = importlib.util.spec_from_file_location("treeunits", _p); tu = importlib.uti
 LEVEL = "model_checking"
 # the ptree.c walkers (lookup / foreach) carry only C12 (and, for clear, C14) obligations and are the slowest units at the thorough bound: they run under C12; clear stays here for its notifier obligations
 UNITS = [u for u in tu.UNITS if u["id"].endswith("_insert") or u["id"].endswith("_remove") or u["id"] in ("clear", "rb_clear")]
+# the constructor records exactly the notifiers it was given (unit shared with C12/C18)
+UNITS.append(dict(id="tree_new", harness="../C18/misc2.c", entry="h_tree_new", sources=["ptree.c", "ptree-bst.c", "ptree-rb.c", "ptree-avl.c"], enforce=None, replace=[], defines=["UNIT_TREE_NEW"], canaries=2, timeout=300,
+                  functions=["p_tree_new_full", "p_tree_free"], cbmc_flags=["--unwind", "4", "--unwinding-assertions", "--object-bits", "10"]))
 REQUIRE_CONFIGURED = ["ptree.c", "ptree-bst.c", "ptree-rb.c", "ptree-avl.c"]
 TECHNIQUE = "BOUNDED stand-in (not an unbounded proof): CBMC on the real ptree*.c from every well-formed tree up to a height bound (BST/ptree.c: 3 quick, 4 thorough; RB/AVL: 2 quick, 3 thorough), one symbolic operation, full re-validation; unwinding assertions on"
 LEVEL_TEXT = ("C14 focus: the destroy notifiers receive exactly the pair that leaves the tree (replaced, removed, cleared), never a stored pair; nothing without notifiers. Heap-shape induction is not expressible in CBMC contracts (no inductive heap predicates), so the per-operation step is checked from EVERY well-formed tree "
